@@ -94,6 +94,61 @@ class Path:
                 "events": [show_event(e) for e in self.events], "outcome": show(self.outcome)}
 
 
+def positions_as_elements(p):
+    """A copy of path p in which the iterator-position view is rewritten into the range view a range-for produces:
+    with b = X.begin() and e = X.end() events of the same receiver X, the decision `b + k == e` (value v) becomes
+    `more(X, k)` (value not v), and `deref(b + k)` becomes the element term ("elem", X, k). Decisions and terms that do not
+    have this shape are left as they are. Lets one rule read `for (auto &x : X)` and `for (it = X.begin(); it != X.end(); ++it)`
+    (and std::for_each / std::accumulate summaries) as the same table."""
+    evs = p.events
+
+    def ev_kind(t):
+        if isinstance(t, tuple) and len(t) >= 2 and t[0] == "ev" and isinstance(t[1], int) and 0 < t[1] <= len(evs):
+            e = evs[t[1] - 1]
+            nm = e[0].split("<")[0].split("::")[-1]
+            if nm in ("begin", "cbegin", "end", "cend") and len(e[1]) == 1:
+                return ("b" if nm in ("begin", "cbegin") else "e", e[1][0])
+        return None
+
+    def as_pos(t):
+        k = 0
+        while isinstance(t, tuple) and len(t) == 4 and t[0] == "op" and t[1] in ("+", "-") and is_const(t[3]):
+            try:
+                c = int(str(t[3][1]).rstrip("uUlL"))
+            except (TypeError, ValueError):
+                return None
+            k += c if t[1] == "+" else -c
+            t = t[2]
+        kd = ev_kind(t)
+        if kd is not None and kd[0] == "b" and k >= 0:
+            return (kd[1], k)
+        return None
+
+    def rw(t):
+        if isinstance(t, Closure) or not isinstance(t, tuple) or not t:
+            return t
+        if t[0] == "app" and len(t) == 3 and t[1] == "deref" and len(t[2]) == 1:
+            ps_ = as_pos(t[2][0])
+            if ps_ is not None:
+                return ("elem", rw(ps_[0]), ps_[1])
+        return tuple(rw(x) if isinstance(x, tuple) else x for x in t)
+    q = Path()
+    for (a, v) in p.decisions:
+        done = False
+        if isinstance(a, tuple) and len(a) == 4 and a[0] == "cmp" and a[1] in ("==", "!="):
+            for (x, y) in ((a[2], a[3]), (a[3], a[2])):
+                px, ky = as_pos(x), ev_kind(y)
+                if px is not None and ky is not None and ky[0] == "e" and ky[1] == px[0]:
+                    q.decisions.append((("more", rw(px[0]), px[1]), (not v) if a[1] == "==" else v))
+                    done = True
+                    break
+        if not done:
+            q.decisions.append((rw(a), v))
+    q.events = [(e[0], tuple(rw(x) for x in e[1])) + tuple(e[2:]) for e in evs]
+    q.outcome = rw(p.outcome) if isinstance(p.outcome, tuple) else p.outcome
+    return q
+
+
 def show_event(e):
     return "%s(%s)" % (e[0], ", ".join(show(a) for a in e[1]))
 
@@ -797,6 +852,13 @@ class Interp:
                 return self.eval(unit, n.get("then"), env, this)
             return self.eval(unit, n.get("else"), env, this)
         if k == "lambda":
+            inits = [c for c in n.get("captures", []) if c.get("init_capture") and c.get("init") is not None and "id" in c]
+            if inits:
+                # init-captures (`[first = begin(r)]`) are evaluated where the lambda expression is, and live in the closure
+                cenv = Env(env)
+                for c in inits:
+                    cenv.vars[c["id"]] = self.eval(unit, c["init"], env, this)
+                return Closure(n, cenv, unit, this)
             return Closure(n, env, unit, this)
         if k == "construct":
             return self.construct(unit, n, env, this)
